@@ -10,8 +10,8 @@ Exactly-once ledger kept beside the real code (the simulated workers are the led
 * C03.single-flight at most one execution of (algorithm, target) is held by the workers at any time;
 * C03.reply-applied every worker reply is applied exactly once: schedule.complete called once with the unit's
                     job/run id/target/state, one chronicle entry (monitor on chronicle.append AND the json
-                    file on disk), schedule.update called once with the reported values on success and never
-                    on failure/invalid;
+                    file on disk), schedule.update called once with the reported values on success (when at
+                    least one value is reported new) and never on failure/invalid;
 * C03.crew-view     the names in farm.crew()['busy'] equal (as a multiset) the units held by the workers,
                     after every event.
 '''
@@ -128,19 +128,14 @@ class Mon(X.Monitor):
                 )
             if r['state'] == 'success':
                 want_u = (unit[0], r['runid'], [tuple(v) for v in r['values']])
-                if tr['update'] != [want_u]:
+                anynew = any(isnew for _n, isnew in r['values'])
+                # with nothing reported new there is nothing to propagate: zero or one call are both fine
+                if tr['update'] != [want_u] and (anynew or tr['update']):
                     problems.append('schedule.update calls %r' % (tr['update'],))
             elif tr['update']:
                 problems.append('schedule.update called on a %s reply' % r['state'])
             if problems:
-                if not tr['complete']:
-                    sig = (
-                        'reply-after-purge-of-executing-dependent'
-                        if unit in self.purged
-                        else 'reply-dropped-job-not-in-queue'
-                    )
-                else:
-                    sig = 'reply-applied-wrongly'
+                sig = X.dropped_signature(rec, self.purged, 'reply-applied-wrongly')
                 out.append(
                     {
                         'clause': 'C03.reply-applied',
@@ -151,16 +146,7 @@ class Mon(X.Monitor):
                         % (want_c,),
                     }
                 )  # fmt: skip
-            # ghost update
-            purged = set(self.purged)
-            purged.discard(unit)
-            if r['state'] != 'success':
-                for tag, tgt in set(post['running']):
-                    if (tag, tgt) != unit and tgt in pre['nodes'][tag]['doing'] and (
-                        tgt not in post['nodes'][tag]['doing']
-                    ):
-                        purged.add((tag, tgt))
-            self.purged = frozenset(u for u in purged if u in set(post['running']))
+        self.purged = X.purged_in_flight(rec, self.purged)
         views = sim.views()
         want_busy = sorted(_name(u) for u in post['running'])
         got_busy = views['crew_busy'] if isinstance(views['crew_busy'], str) else sorted(views['crew_busy'])
